@@ -39,6 +39,10 @@ CONFIGS = [
     {"name": "c+pp", "argv": ["--target-language", "c", "--pp-max-emptylines", "0", "--pp-trim-trailing-whitespace"], "ext": ".h"},
     {"name": "cpp", "argv": ["--target-language", "cpp", "--experimental-languages", "--language-standard", "c++17"], "ext": ".hpp"},
     {"name": "py", "argv": ["--target-language", "py"], "ext": ".py"},
+    # the same target with another support namespace (a documented key of the language section, set by a configuration file):
+    # what an earlier run in the interpreter used for it must not show in the includes of a later one
+    {"name": "c+supns", "argv": ["--target-language", "c", "--configuration=@SUPCFG_c@"], "ext": ".h"},
+    {"name": "cpp+supns", "argv": ["--target-language", "cpp", "--experimental-languages", "--language-standard", "c++17", "--configuration=@SUPCFG_cpp@"], "ext": ".hpp"},
     {"name": "user", "argv": ["--target-language", "c", "--output-extension", ".txt", "--templates", "@TPL@"], "ext": ".txt"},
     {"name": "user+limit1", "argv": ["--target-language", "c", "--output-extension", ".txt", "--templates", "@TPL@", "--pp-max-emptylines", "1"], "ext": ".txt"},
     {"name": "user+limit2+trim", "argv": ["--target-language", "c", "--output-extension", ".txt", "--templates", "@TPL@", "--pp-max-emptylines", "2", "--pp-trim-trailing-whitespace"], "ext": ".txt"},
@@ -212,6 +216,8 @@ class Env:
     def _init_tpl(self):
         for n, text in USER_TEMPLATES.items():
             (self.tpl / n).write_text(text)
+        for lang in ("c", "cpp"):
+            (self.tmp / f"supns_{lang}.yaml").write_text(f"nunavut.lang.{lang}:\n  support_namespace: vendor.helpers\n")
 
     def close(self):
         shutil.rmtree(self.tmp, ignore_errors=True)
@@ -268,7 +274,7 @@ class Env:
         return d / self.root["name"]
 
     def argv(self, cfg: dict, rootdir: pathlib.Path, out: pathlib.Path) -> typing.List[str]:
-        a = [x.replace("@TPL@", str(self.tpl)) for x in cfg["argv"]]
+        a = [x.replace("@TPL@", str(self.tpl)).replace("@SUPCFG_c@", str(self.tmp / "supns_c.yaml")).replace("@SUPCFG_cpp@", str(self.tmp / "supns_cpp.yaml")) for x in cfg["argv"]]
         return a + ["--allow-unregulated-fixed-port-id", "--outdir", str(out), str(rootdir)]
 
     def run(self, keys: typing.List[str], cfg: dict, inproc: bool, hashseed: str = "0", creation_order=None) -> typing.Tuple[int, typing.Dict[str, bytes], str]:
@@ -641,8 +647,11 @@ def run(ctx: core.Ctx):
     try:
         nkeys = len(m.env.order)
         axles = [i for i, k in enumerate(m.env.order) if ".Axle." in k]
-        for cfg in ("c", "cpp", "py", "user+limit1"):
+        for cfg in ("c", "c+supns", "cpp", "cpp+supns", "py", "user+limit1"):
             m.step({"seeds": None, "cfg": cfg, "inproc": True})
+            if cfg.endswith("+supns"):
+                m.step({"seeds": None, "cfg": cfg.split("+")[0], "inproc": True})
+                continue
             for i in axles:
                 m.step({"seeds": [i], "cfg": cfg, "inproc": True})
             m.step({"seeds": None, "cfg": cfg, "inproc": True})
